@@ -16,14 +16,19 @@ RULE = ("histories on the real cache plugin (Cache.Exec with a scripted rest-of-
         "stored/expiry times are 'now - age' in whole seconds, GET /dump, lazy_hit_total): a hand-written catalogue (every second "
         "around message expiry and cache expiry, lazy off/on/switched off, TTL 0/1/2/2^32-1, ages up to and beyond 2^32 s and beyond "
         "what a time.Duration can express, stored-in-the-future, OPT in every section, every rcode class x TC x empty/non-empty answer "
-        "x zero TTL, lazy_cache_ttl overflowing int64 ns, overwrite/ignored-load/two-key histories, entries that expire while in the map "
-        "(real waiting)) followed by seeded random cases: 50% load+look-up with the age drawn within +-2 s of an expiry instant, 30% "
-        "store+dump+look-up, 20% mixed histories over two questions; plus the exact-instant time arithmetic of getRespFromCache "
+        "x zero TTL, lazy_cache_ttl overflowing int64 ns, overwrite/ignored-load/two-key histories, a stale hit whose background "
+        "refresh is answered by every kind of reply that must not be stored (TC with any rcode, zero TTL in any section, no record / "
+        "OPT only, rcodes 1,4,5,9,15,16,4095) and by every kind that may (answer, empty answer around 300 s, NXDOMAIN, SERVFAIL), "
+        "followed by a dump and two more queries; the same reply on a fresh / dead / lazy-off entry (no refresh); a refused refresh "
+        "followed by an accepted one; entries that expire while in the map (real waiting)) followed by seeded random cases: 40% "
+        "load+look-up with the age drawn within +-2 s of an expiry instant, 20% store+dump+look-up, 20% load + stale hit with a "
+        "scripted refresh reply (half of them unstorable) + dump + look-up, 20% mixed histories over two questions (the driver joins "
+        "every refresh through VerifC10LazyWait before it looks at the store); plus the exact-instant time arithmetic of getRespFromCache "
         "(time.Unix(..).Sub(..).Seconds() -> uint32, incl. the float64 rounding windows), the dnsutils TTL helpers with arbitrary "
         "deltas, and bursts of 1-64 concurrent stale hits on 1-3 questions with the refresh held on a channel. Every case runs inside "
         "one wall-clock second (re-run otherwise) so no comparison with an expiry instant depends on scheduling. A case is non-trivial "
         "when an age is within 2 s of an expiry instant, a stale (lazy) hit occurs, a TTL is 0, 1 or 2^32-1, a lifetime rule other than "
-        "'smallest TTL' applies, real waiting is involved, the time arithmetic is at a second boundary or beyond 2^24 s, or it is a "
+        "'smallest TTL' applies, a refresh reply is truncated / not NOERROR / has an edge TTL, real waiting is involved, the time arithmetic is at a second boundary or beyond 2^24 s, or it is a "
         "concurrent burst; distinct = distinct Gallina literal")
 ASSUMPTIONS = [
     "one clock: time.Time is modelled as nanoseconds on a single clock (monotonic-clock readings of time.Time are not modelled)",
@@ -31,6 +36,7 @@ ASSUMPTIONS = [
     "secs_go (IEEE binary64 evaluation of Duration.Seconds via Coq's SpecFloat) equals the whole-second count for ages below 2^24 s: "
     "checked on every observed case, not proved",
     "x/sync/singleflight DoChan/doCall/Forget behave as modelled by Model.CacheTTL.sf_step (checked by the burst cases)",
+    "cache.VerifC10LazyWait (verif export added for C10) returns only after the refresh started by the preceding Exec has finished",
     "miekg/dns Pack/Unpack preserve section, type and TTL of every record (used only to inject and read back dump entries)",
 ]
 TRUSTED_BASE = [
@@ -44,7 +50,8 @@ LEVEL_TEXT = ("Theorems in coq/Properties/C05.v, for every message, every TTL (u
               "is served iff now < message expiry and not cache expiry < now; with lazy caching an expired message in a live entry is "
               "served with TTL 5 and flagged for refresh; for every schedule at most one refresh per question is in flight and a stale "
               "hit always leaves exactly one; admission (no TC, rcode 0/2/3, positive smallest TTL) and the exact lifetimes "
-              "(30 s / 5 s / min(300 s, smallest TTL) / smallest TTL); OPT untouched; for every history of loads, queries, dumps, waits "
+              "(30 s / 5 s / min(300 s, smallest TTL) / smallest TTL), the same decision for the reply of a background refresh (a reply that "
+              "must not be stored never replaces the stale entry nor adds one; a storable one replaces it); OPT untouched; for every history of loads, queries, dumps, waits "
               "and sweeps deletion of expired entries is unobservable (with evictions only extra misses). The model is run inside Coq "
               "(bit-exact float64 seconds) on every case the Go driver observed on the real plugin (Judge.C05.agree) and the property's "
               "own arithmetic oracle is applied to the observations (Judge.C05.spec).")
